@@ -258,10 +258,7 @@ theorem opMove_eqv {e : Bool} {o : Opts} {r₁ r₂ : Root} {op : Op} (he : o.es
           rw [hb] at hk2
           rw [ha, hb]
           simp only []
-          refine liftAct_eqv (conRemove_eqv hc kc₁.2 kc₂.2) ?_
-          split
-          · rw [he, deepCopy_eqv hk1 hk2 hab]
-          · exact hab
+          exact liftAct_eqv (conRemove_eqv hc kc₁.2 kc₂.2) hab
         · rw [ha, hb]
         · rw [ha, hb]
       have hK1 : WalkK e (fun v => KN e v) w₁ := by
@@ -274,11 +271,7 @@ theorem opMove_eqv {e : Bool} {o : Opts} {r₁ r₂ : Root} {op : Op} (he : o.es
         | err e => trivial
         | ok x =>
           rw [hg] at hg'
-          have hvx : KN e (if key = [] then (deepCopy o.esc x).1 else x) := by
-            split
-            · rw [he]; exact KN_deepCopy hg'
-            · exact hg'
-          exact liftAct_K (conRemove_K hc.1) hvx
+          exact liftAct_K (conRemove_K hc.1) hg'
       have hK2 : WalkK e (fun v => KN e v) w₂ := by
         rw [← hwe2]
         refine withPath_K o r₂ _ _ _ k₂ ?_
@@ -289,11 +282,7 @@ theorem opMove_eqv {e : Bool} {o : Opts} {r₁ r₂ : Root} {op : Op} (he : o.es
         | err e => trivial
         | ok x =>
           rw [hg] at hg'
-          have hvx : KN e (if key = [] then (deepCopy o.esc x).1 else x) := by
-            split
-            · rw [he]; exact KN_deepCopy hg'
-            · exact hg'
-          exact liftAct_K (conRemove_K hc.1) hvx
+          exact liftAct_K (conRemove_K hc.1) hg'
       clear hwe1 hwe2
       rcases Walk_cases_eq hw with ⟨c₁, a₁, c₂, a₂, rfl, rfl, hc, ha⟩ | ⟨c₁, c₂, rfl, rfl, hc⟩ | ⟨er, rfl, rfl⟩ |
         ⟨rfl, rfl⟩ | ⟨s₁, a₁, s₂, a₂, rfl, rfl, hs, ha⟩ | ⟨s₁, s₂, rfl, rfl, hs⟩
@@ -343,6 +332,23 @@ theorem copySource_eqv {e : Bool} {o : Opts} {r₁ r₂ : Root} {frm : Bytes}
   · rw [ha, hb]
   · rw [ha, hb]
 
+theorem isNullN_deepParse (n : Node) (h : shape n = true) : isNullN (deepParse n) = isNullN n := by
+  cases n <;> simp_all [shape, deepParse, isNullN]
+
+theorem copyFirst_eqv {e : Bool} {o : Opts} {r₁ r₂ : Root} {frm : Bytes}
+    (hr : DR r₁ = DR r₂) (k₁ : RootK e r₁) (k₂ : RootK e r₂) :
+    WmapD deepParse (copyFirst o r₁ frm) = WmapD deepParse (copyFirst o r₂ frm) := by
+  unfold copyFirst
+  split
+  · have hc := (DR_eq.1 hr).1
+    have hn : isNullN r₁.con = isNullN r₂.con := by
+      rw [← isNullN_deepParse _ k₁.1.2, ← isNullN_deepParse _ k₂.1.2, hc]
+    rw [hn]
+    split
+    · rfl
+    · simp only [WmapD, hc]
+  · exact copySource_eqv hr k₁ k₂
+
 theorem destWalk_eqv {e : Bool} {o : Opts} {r₁ r₂ : Root} {path : Bytes}
     (hr : DR r₁ = DR r₂) (k₁ : RootK e r₁) (k₂ : RootK e r₂) :
     WmapD id (destWalk o r₁ path) = WmapD id (destWalk o r₂ path) := by
@@ -372,22 +378,22 @@ theorem opCopy_eqv {e : Bool} {o : Opts} {r₁ r₂ : Root} {acc : Int} {op : Op
   | some frm =>
     simp only []
     -- the source walk
-    have hw1 := copySource_eqv (o := o) (frm := frm) hr k₁ k₂
+    have hw1 := copyFirst_eqv (o := o) (frm := frm) hr k₁ k₂
     have ha1 := afterW_eqv hr hw1
-    cases h1 : afterW r₁ (copySource o r₁ frm) with
+    cases h1 : afterW r₁ (copyFirst o r₁ frm) with
     | none =>
-      cases h2 : afterW r₂ (copySource o r₂ frm) with
+      cases h2 : afterW r₂ (copyFirst o r₂ frm) with
       | some x => rw [h1, h2] at ha1; cases ha1
       | none => simp only [failOf_eqv hw1]
     | some r1a =>
-      cases h2 : afterW r₂ (copySource o r₂ frm) with
+      cases h2 : afterW r₂ (copyFirst o r₂ frm) with
       | none => rw [h1, h2] at ha1; cases ha1
       | some r1b =>
         rw [h1, h2] at ha1
         simp only [Option.map_some, Option.some.injEq] at ha1
         simp only []
-        have ka := afterW_K k₁ (copySource_K (o := o) (frm := frm) k₁) h1
-        have kb := afterW_K k₂ (copySource_K (o := o) (frm := frm) k₂) h2
+        have ka := afterW_K k₁ (copyFirst_K (o := o) (frm := frm) k₁) h1
+        have kb := afterW_K k₂ (copyFirst_K (o := o) (frm := frm) k₂) h2
         -- the destination walk
         have hw2 := destWalk_eqv (o := o) (path := op.path) ha1 ka kb
         have ha2 := afterW_eqv ha1 hw2
@@ -514,9 +520,7 @@ theorem opTest_fix {o : Opts} {r r1 : Root} {op : Op} (hs : shape r.con = true)
           rw [he] at hact
           simp only at hact
           split at hact
-          · split at hact
-            · simp only [Outcome.ok.injEq, Prod.mk.injEq] at hact; rw [← hact.1]
-            · simp only [Outcome.ok.injEq, Prod.mk.injEq] at hact; rw [← hact.1]
+          · simp only [Outcome.ok.injEq, Prod.mk.injEq] at hact; rw [← hact.1]
           · cases hact
       | ok val =>
         rw [hg] at hact
@@ -529,12 +533,9 @@ theorem opTest_fix {o : Opts} {r r1 : Root} {op : Op} (hs : shape r.con = true)
           split at hact
           · split at hact
             · simp only [Outcome.ok.injEq, Prod.mk.injEq] at hact; rw [← hact.1]
-            · rename_i hk
-              split at hact
-              · simp only [Outcome.ok.injEq, Prod.mk.injEq] at hact; rw [← hact.1]
-              · simp only [Outcome.ok.injEq, Prod.mk.injEq] at hact
-                rw [← hact.1, putChild_D o con key val' hsc, hv, ← putChild_D o con key val hsc,
-                  putChild_self hk hg]
+            · simp only [Outcome.ok.injEq, Prod.mk.injEq] at hact
+              rw [← hact.1, putChild_D o con key val' hsc, hv, ← putChild_D o con key val hsc,
+                putChild_self hg]
           · cases hact
     clear hwe
     cases w with
